@@ -397,6 +397,25 @@ func rtSQLCase(k *engine.Case) {
 		err = out.Scan(in)
 		judge(k, "Base64Bytes.Scan", fmt.Sprintf("%T", in), sp, fmt.Sprintf("%q", txt), fmt.Sprintf("%x", []byte(out)), err)
 	}
+	// blobs: a column of this type holds whole files, not only short tokens
+	if r.Intn(4) == 0 {
+		n := []int{4095, 4096, 4097, 4098, 8191, 8192, 8193, 12289, 65536, 65537, 100000 + r.Intn(9), 1 << 20}[r.Intn(12)]
+		b := make([]byte, n)
+		r.Read(b)
+		what := fmt.Sprintf("%d random bytes %x...", n, b[:8])
+		dv, err := tex.Base64Bytes(b).Value()
+		s, isStr := dv.(string)
+		den, _, denOK := b64Text(s)
+		sqlCheck(k, "Base64Bytes.Value", what, err == nil && isStr && denOK && bytes.Equal(den, b), "Value() = %q (%d characters) err=%v: that text does not denote the original bytes", clip(s), len(s), err)
+		if isStr {
+			for _, in := range []any{s, []byte(s)} {
+				out := tex.Base64Bytes{9, 9, 9}
+				err := out.Scan(in)
+				sqlCheck(k, "Base64Bytes.Scan", fmt.Sprintf("%T Value() of %s", in, what), err == nil && bytes.Equal(out, b), "Scan(Value()) = %d bytes %s err=%v", len(out), clip(fmt.Sprintf("%x", []byte(out))), err)
+			}
+		}
+		k.Count("sql.base64_blobs", 1)
+	}
 }
 
 func mutateB64(r *rand.Rand, s string) string {
